@@ -535,7 +535,7 @@ Section LookupProofs.
     Lemma constraints_at_explicit r nzre zgx :
       (npl <= length zgx)%nat ->
       constraints_at r (nzre :: zgx) =
-      Some ([ sel (sel_vals r) 3 * S (npl - 1) r; sel (sel_vals r) 2 * S 0 r; sel (sel_vals r) 2 * RE r ]
+      Some ([ sel (sel_vals r) 3 * S (npl - 1) r; sel (sel_vals r) 2 * S (npl - 1) r; sel (sel_vals r) 2 * RE r ]
             ++ [ sel (sel_vals r) 4 * (RE r - end_value) ]
             ++ [ sel (sel_vals r) 0 * (RE r - re_fold (ch_delta ch) nzre (map (looked_combo (ch_b ch) (W r)) (seq 0 nlut))) ]
             ++ trans_terms r zgx).
@@ -552,7 +552,7 @@ Section LookupProofs.
         specialize (wires_len r). lia. }
       cbn [map sequence]. rewrite (lut_poly_eval_spec tab ch nlut tab_nonempty nlut_pos).
       cbn [length seq combine map app].
-      rewrite (nth_S_row (npl - 1) r) by lia. rewrite (nth_S_row 0 r) by lia.
+      rewrite (nth_S_row (npl - 1) r) by lia.
       reflexivity.
     Qed.
 
@@ -570,7 +570,7 @@ Section LookupProofs.
     Theorem region_constraints_zero :
       (forall r, In r lut_rows -> lut_eq r /\ lut_factors_ok r) ->
       (forall r, In r lu_rows -> lu_eq r /\ lu_factors_ok r) ->
-      RE (first_lut g + 1) = 0 -> S 0 (first_lut g + 1) = 0 ->
+      RE (first_lut g + 1) = 0 -> S (npl - 1) (first_lut g + 1) = 0 ->
       S (npl - 1) (last_lu g) = 0 -> RE (last_lut g) = end_value ->
       forall r nz, length nz = Datatypes.S npl ->
         ((last_lu g <= r <= first_lut g)%nat -> nz = zs_at (r + 1)) ->
@@ -1093,7 +1093,7 @@ Section LookupProofs.
     Lemma multi_explicit r nzre zgx :
       (npl <= length zgx)%nat ->
       lookup_constraints num_routed qdf tabs ch (W r) (zsr r) (nzre :: zgx) (sels r) =
-      Some ([ sel (sels r) 3 * S (npl - 1) r; sel (sels r) 2 * S 0 r; sel (sels r) 2 * RE r ]
+      Some ([ sel (sels r) 3 * S (npl - 1) r; sel (sels r) 2 * S (npl - 1) r; sel (sels r) 2 * RE r ]
             ++ map (fun '(i, ev) => sel (sels r) (4 + i) * (RE r - ev))
                    (combine (seq 0 (length tabs)) (map (fun tab => end_value num_routed tab ch) tabs))
             ++ [ sel (sels r) 0 * (RE r - re_fold (ch_delta ch) nzre (map (looked_combo (ch_b ch) (W r)) (seq 0 nlut))) ]
@@ -1111,7 +1111,7 @@ Section LookupProofs.
         specialize (wires_len r). lia. }
       rewrite (sequence_map_Some _ (fun tab => end_value num_routed tab ch)).
       2:{ intros tab Ht. apply lut_poly_eval_spec; [apply tabs_nonempty; exact Ht|exact nlut_pos]. }
-      rewrite (nth_S_row npl S (npl - 1) r) by lia. rewrite (nth_S_row npl S 0 r) by lia.
+      rewrite (nth_S_row npl S (npl - 1) r) by lia.
       reflexivity.
     Qed.
 
@@ -1134,7 +1134,7 @@ Section LookupProofs.
       (last_lu g < last_lut g)%nat /\ (last_lut g <= first_lut g)%nat /\
       (forall r, In r (lut_rows g) -> lut_eq num_routed npl ch W RE S r /\ lut_factors_ok num_routed ch W r) /\
       (forall r, In r (lu_rows g) -> lu_eq num_routed qdf npl ch W S r /\ lu_factors_ok num_routed ch W r) /\
-      RE (first_lut g + 1) = 0 /\ S 0%nat (first_lut g + 1)%nat = 0 /\
+      RE (first_lut g + 1) = 0 /\ S (npl - 1)%nat (first_lut g + 1)%nat = 0 /\
       S (npl - 1)%nat (last_lu g) = 0 /\ RE (last_lut g) = end_value num_routed tab ch.
 
     Lemma existsb_region (f : region -> bool) :
@@ -1214,6 +1214,179 @@ Section LookupProofs.
           * intros j Hj. apply Hfac. eapply slot_range_in. exact Hj.
           * rewrite (Heq k) by lia. unfold ldc_term, lu_deg, nlu, alpha, ca. ring.
     Qed.
+
+    (* ---------------------------------------------------------- soundness direction: what vanishing constraints force *)
+    Lemma Forall_combine_seq_inv {A} (P : nat * A -> Prop) (l : list A) (d : A) a :
+      Forall P (combine (seq a (length l)) l) -> forall i, (i < length l)%nat -> P ((a + i)%nat, nth i l d).
+    Proof.
+      revert a. induction l as [|x l IH]; intros a HF i Hi; [cbn in Hi; lia|].
+      cbn [length seq combine] in HF. inversion HF as [|? ? Hx Hrest]; subst. destruct i as [|i].
+      - rewrite Nat.add_0_r. exact Hx.
+      - cbn [nth]. replace (a + Datatypes.S i)%nat with (Datatypes.S a + i)%nat by lia. apply IH; [exact Hrest|cbn in Hi; lia].
+    Qed.
+
+    Lemma b2f_true_mul (b : bool) (x : F) : b = true -> b2f b * x = 0 -> x = 0.
+    Proof. intros -> E. cbn [b2f] in E. rewrite <- E. ring. Qed.
+
+    Lemma multi_zero_parts r nzre zgx cs :
+      (npl <= length zgx)%nat ->
+      lookup_constraints num_routed qdf tabs ch (W r) (zsr r) (nzre :: zgx) (sels r) = Some cs -> all_zero cs ->
+      sel (sels r) 3 * S (npl - 1) r = 0 /\ sel (sels r) 2 * S (npl - 1) r = 0 /\ sel (sels r) 2 * RE r = 0 /\
+      (forall i, (i < length tabs)%nat -> sel (sels r) (4 + i) * (RE r - end_value num_routed (nth i tabs []) ch) = 0) /\
+      sel (sels r) 0 * (RE r - re_fold (ch_delta ch) nzre (map (looked_combo (ch_b ch) (W r)) (seq 0 nlut))) = 0 /\
+      (forall k, (k < npl)%nat ->
+         let prev := if (k =? 0)%nat then nth (npl - 1) zgx 0 else nth (k - 1) (map (fun k0 => S k0 r) (seq 0 npl)) 0 in
+         sel (sels r) 0 * sum_transition alpha ca (W r) (slot_range k lut_deg nlut) (S k r) prev = 0 /\
+         sel (sels r) 1 * ldc_transition alpha ca (W r) (slot_range k lu_deg nlu) (S k r) prev = 0).
+    Proof.
+      intros Hz HS Hall. rewrite (multi_explicit r nzre zgx Hz) in HS. injection HS as E. subst cs.
+      unfold all_zero in Hall.
+      inversion Hall as [|? ? Ha H3']; subst. inversion H3' as [|? ? Hb H3'']; subst. inversion H3'' as [|? ? Hc H4]; subst.
+      apply Forall_app in H4. destruct H4 as [Hends Hrest]. inversion Hrest as [|? ? Hd Htr]; subst.
+      split; [exact Ha|]. split; [exact Hb|]. split; [exact Hc|]. split; [|split; [exact Hd|]].
+      - intros i Hi. rewrite Forall_map in Hends.
+        rewrite <- (map_length (fun tab => end_value num_routed tab ch) tabs) in Hends.
+        pose proof (Forall_combine_seq_inv _ _ (end_value num_routed [] ch) 0 Hends i ltac:(rewrite map_length; exact Hi)) as E.
+        cbv beta iota in E. change (0 + i)%nat with i in E.
+        rewrite (map_nth (fun tab => end_value num_routed tab ch)) in E. exact E.
+      - intros k Hk. unfold multi_trans in Htr. rewrite Forall_flat_map, Forall_forall in Htr.
+        specialize (Htr k ltac:(apply in_seq; lia)). cbv zeta in Htr.
+        rewrite (nth_S_row npl S k r) in Htr by lia.
+        inversion Htr as [|? ? H1 Htr']; subst. inversion Htr' as [|? ? H2 _]; subst. split; assumption.
+    Qed.
+
+    Section SoundRegion.
+      Variables (n i : nat).
+      Let g := nth i regions gd.
+      Let tab := nth i tabs [].
+      Hypothesis all_rows_zero : forall r, (r < n)%nat ->
+        exists cs, lookup_constraints num_routed qdf tabs ch (W r) (zsr r) (zsr ((r + 1) mod n)) (sels r) = Some cs /\ all_zero cs.
+      Hypothesis i_lt : (i < length regions)%nat.
+      Hypothesis g_ok : (last_lu g < last_lut g)%nat /\ (last_lut g <= first_lut g)%nat.
+      Hypothesis g_in : (first_lut g + 1 < n)%nat.
+      Hypothesis cover_lut : (nlut <= npl * lut_deg)%nat.
+      Hypothesis cover_lu : (nlu <= npl * lu_deg)%nat.
+
+      Lemma g_In : In g regions.
+      Proof. apply nth_In. exact i_lt. Qed.
+
+      (* the parts of row r, with the next row's openings being those of row r + 1 *)
+      Lemma row_parts r : (Datatypes.S r < n)%nat ->
+        sel (sels r) 3 * S (npl - 1) r = 0 /\ sel (sels r) 2 * S (npl - 1) r = 0 /\ sel (sels r) 2 * RE r = 0 /\
+        (forall j, (j < length tabs)%nat -> sel (sels r) (4 + j) * (RE r - end_value num_routed (nth j tabs []) ch) = 0) /\
+        sel (sels r) 0 * (RE r - re_fold (ch_delta ch) (RE (r + 1)) (map (looked_combo (ch_b ch) (W r)) (seq 0 nlut))) = 0 /\
+        (forall k, (k < npl)%nat ->
+           sel (sels r) 0 * sum_transition alpha ca (W r) (slot_range k lut_deg nlut) (S k r) (prevS npl S k r) = 0 /\
+           sel (sels r) 1 * ldc_transition alpha ca (W r) (slot_range k lu_deg nlu) (S k r) (prevS npl S k r) = 0).
+      Proof.
+        intros Hr. destruct (all_rows_zero r ltac:(lia)) as (cs & HS & Hall).
+        rewrite Nat.mod_small in HS by lia. unfold zsr at 2 in HS. unfold zs_at in HS.
+        pose proof (multi_zero_parts r (RE (r + 1)) (map (fun k => S k (r + 1)) (seq 0 npl)) cs
+                      ltac:(rewrite map_length, seq_length; lia) HS Hall) as (Ha & Hb & Hc & Hd & He & Hf).
+        repeat (split; [assumption|]). intros k Hk. specialize (Hf k Hk). cbv zeta in Hf.
+        rewrite (prev_value r k Hk) in Hf. exact Hf.
+      Qed.
+
+      Lemma sel0_lut r : (last_lut g <= r <= first_lut g)%nat -> sel (sels r) 0 = 1.
+      Proof.
+        intros Hr. change (sel (sels r) 0) with (b2f (existsb (fun g0 => in_range (last_lut g0) (first_lut g0 + 1) r) regions)).
+        replace (existsb _ regions) with true; [reflexivity|]. symmetry. apply existsb_exists.
+        exists g. split; [apply g_In|]. apply in_range_spec. lia.
+      Qed.
+      Lemma sel1_lu r : (last_lu g <= r < last_lut g)%nat -> sel (sels r) 1 = 1.
+      Proof.
+        intros Hr. change (sel (sels r) 1) with (b2f (existsb (fun g0 => in_range (last_lu g0) (last_lut g0) r) regions)).
+        replace (existsb _ regions) with true; [reflexivity|]. symmetry. apply existsb_exists.
+        exists g. split; [apply g_In|]. apply in_range_spec. lia.
+      Qed.
+      Lemma sel2_init : sel (sels (first_lut g + 1)) 2 = 1.
+      Proof.
+        change (sel (sels (first_lut g + 1)) 2) with (b2f (existsb (fun g0 => (first_lut g + 1 =? first_lut g0 + 1)%nat) regions)).
+        replace (existsb _ regions) with true; [reflexivity|]. symmetry. apply existsb_exists.
+        exists g. split; [apply g_In|]. apply Nat.eqb_refl.
+      Qed.
+      Lemma sel3_last : sel (sels (last_lu g)) 3 = 1.
+      Proof.
+        change (sel (sels (last_lu g)) 3) with (b2f (existsb (fun g0 => (last_lu g =? last_lu g0)%nat) regions)).
+        replace (existsb _ regions) with true; [reflexivity|]. symmetry. apply existsb_exists.
+        exists g. split; [apply g_In|]. apply Nat.eqb_refl.
+      Qed.
+
+      Lemma one_mul_zero (x : F) : 1 * x = 0 -> x = 0.
+      Proof. intros E. rewrite <- E. ring. Qed.
+
+      (* the parts that do not read the next row, on any row of H *)
+      Lemma row_parts_local r : (r < n)%nat ->
+        sel (sels r) 3 * S (npl - 1) r = 0 /\ sel (sels r) 2 * S (npl - 1) r = 0 /\ sel (sels r) 2 * RE r = 0.
+      Proof.
+        intros Hr. destruct (all_rows_zero r Hr) as (cs & HS & Hall).
+        unfold zsr at 2 in HS. unfold zs_at in HS.
+        pose proof (multi_zero_parts r (RE ((r + 1) mod n)) (map (fun k => S k ((r + 1) mod n)) (seq 0 npl)) cs
+                      ltac:(rewrite map_length, seq_length; lia) HS Hall) as (Ha & Hb & Hc & _).
+        auto.
+      Qed.
+
+      (* InitSre pins the start of the running sum, LastLdc its end *)
+      Lemma start_pinned : S (npl - 1) (first_lut g + 1) = 0.
+      Proof.
+        destruct (row_parts_local (first_lut g + 1) ltac:(lia)) as (_ & Hb & _). rewrite sel2_init in Hb.
+        apply one_mul_zero. exact Hb.
+      Qed.
+      Lemma end_pinned : S (npl - 1) (last_lu g) = 0.
+      Proof.
+        destruct (row_parts (last_lu g) ltac:(lia)) as (Ha & _). rewrite sel3_last in Ha. apply one_mul_zero. exact Ha.
+      Qed.
+
+      (* the logUp balance at the challenge alpha, over the rows of the table *)
+      Theorem sound_balance :
+        (forall r, In r (lut_rows g) -> lut_factors_ok num_routed ch W r) ->
+        (forall r, In r (lu_rows g) -> lu_factors_ok num_routed ch W r) ->
+        fsum (map (fun r => fsum (map (sum_term ch W r) (seq 0 nlut))) (lut_rows g)) =
+        fsum (map (fun r => fsum (map (ldc_term ch W r) (seq 0 nlu))) (lu_rows g)).
+      Proof.
+        intros Hfl Hfu.
+        pose proof (sldc_chain_sound num_routed qdf npl ch g W S npl_pos cover_lut cover_lu g_ok) as CS.
+        assert (H1 : forall r, In r (lut_rows g) ->
+                  lut_factors_ok num_routed ch W r /\
+                  forall k, (k < npl)%nat ->
+                    sum_transition (ch_alpha ch) (ch_a ch) (W r) (slot_range k (div_ceil (num_routed / 3) npl) (num_routed / 3))
+                                   (S k r) (prevS npl S k r) = 0).
+        { intros r Hr. split; [apply Hfl; exact Hr|]. unfold lut_rows, range in Hr. apply in_seq in Hr.
+          intros k Hk. destruct (row_parts r ltac:(lia)) as (_ & _ & _ & _ & _ & Hf). destruct (Hf k Hk) as [Hs _].
+          rewrite sel0_lut in Hs by lia. apply one_mul_zero. exact Hs. }
+        assert (H2 : forall r, In r (lu_rows g) ->
+                  lu_factors_ok num_routed ch W r /\
+                  forall k, (k < npl)%nat ->
+                    ldc_transition (ch_alpha ch) (ch_a ch) (W r) (slot_range k (qdf - 1) (num_routed / 2))
+                                   (S k r) (prevS npl S k r) = 0).
+        { intros r Hr. split; [apply Hfu; exact Hr|]. unfold lu_rows, range in Hr. apply in_seq in Hr.
+          intros k Hk. destruct (row_parts r ltac:(lia)) as (_ & _ & _ & _ & _ & Hf). destruct (Hf k Hk) as [_ Hl].
+          rewrite sel1_lu in Hl by lia. apply one_mul_zero. exact Hl. }
+        specialize (CS H1 H2). rewrite start_pinned, end_pinned in CS.
+        apply f_sub_eq_0. unfold nlut, nlu. rewrite <- CS. ring.
+      Qed.
+
+      (* the RE recurrence over the table rows, run from zero, ends at get_lut_poly's value *)
+      Theorem sound_re :
+        re_fold (ch_delta ch) 0 (flat_map (fun r => map (looked_combo (ch_b ch) (W r)) (seq 0 nlut)) (rev (lut_rows g))) =
+        end_value num_routed tab ch.
+      Proof.
+        assert (Hre0 : RE (first_lut g + 1) = 0).
+        { destruct (row_parts_local (first_lut g + 1) ltac:(lia)) as (_ & _ & Hc). rewrite sel2_init in Hc.
+          apply one_mul_zero. exact Hc. }
+        assert (Hend : RE (last_lut g) = end_value num_routed tab ch).
+        { destruct (row_parts (last_lut g) ltac:(lia)) as (_ & _ & _ & Hd & _).
+          specialize (Hd i ltac:(rewrite tabs_len; exact i_lt)). rewrite sel_end in Hd by exact i_lt.
+          fold g in Hd. rewrite Nat.eqb_refl in Hd. cbn [b2f] in Hd. apply f_sub_eq_0. apply one_mul_zero. exact Hd. }
+        rewrite <- Hend.
+        pose proof (re_chain (ch_delta ch) RE (fun r => map (looked_combo (ch_b ch) (W r)) (seq 0 nlut))
+                             (last_lut g) (first_lut g + 1) ltac:(lia)) as C.
+        rewrite C, Hre0; [reflexivity|].
+        intros r Hr. replace (Datatypes.S r) with (r + 1)%nat by lia.
+        destruct (row_parts r ltac:(lia)) as (_ & _ & _ & _ & He & _). rewrite sel0_lut in He by lia.
+        apply f_sub_eq_0. apply one_mul_zero. exact He.
+      Qed.
+    End SoundRegion.
   End Multi.
 
   (* ------------------------------------------------------------ the prover's loop over the tables *)
@@ -1435,7 +1608,7 @@ Section LookupProofs.
       { unfold SS, Sp in Hfin. replace (Datatypes.S (npl - 1)) with npl in Hfin by lia. exact Hfin. }
       intros r Hr.
       pose proof (region_constraints_zero num_routed qdf npl tab ch g W RE SS ltac:(lia) cover_lut cover_lu Hlay
-                    ltac:(lia) Hnlut Htab Hwl Hlut_eq Hlu_eq Hre0 (Hs0 0%nat) Hfin Hend r (zs_of num_routed qdf P ((r + 1) mod n))) as RC.
+                    ltac:(lia) Hnlut Htab Hwl Hlut_eq Hlu_eq Hre0 (Hs0 (npl - 1)%nat) Hfin Hend r (zs_of num_routed qdf P ((r + 1) mod n))) as RC.
       assert (Hlen : length (zs_of num_routed qdf P ((r + 1) mod n)) = Datatypes.S npl).
       { unfold zs_of. cbn [length]. rewrite map_length, seq_length. reflexivity. }
       specialize (RC Hlen).
@@ -1444,4 +1617,324 @@ Section LookupProofs.
       destruct (RC Hnext) as (cs & Hcs & Hzero). exists cs. split; [|exact Hzero]. exact Hcs.
     Qed.
   End Complete.
+  (* ------------------------------------------------------------ from the balance equation to membership *)
+  (* sum_v c(v) / (X - v) over distinct poles vanishing at |poles| points forces every c(v) = 0 *)
+  Section Poles.
+    Definition lin (v : F) : list F := [- v; 1].
+    Lemma peval_lin v x : peval (lin v) x = x - v.
+    Proof. cbn. ring. Qed.
+
+    Fixpoint prodlin (vs : list F) : list F :=
+      match vs with [] => [1] | v :: r => pmul (lin v) (prodlin r) end.
+
+    Lemma prodlin_length vs : length (prodlin vs) = Datatypes.S (length vs).
+    Proof.
+      induction vs as [|v r IH]; [reflexivity|]. cbn [prodlin]. rewrite pmul_length.
+      - rewrite IH. cbn [lin length]. lia.
+      - discriminate.
+      - intros E. rewrite E in IH. discriminate.
+    Qed.
+
+    Lemma peval_prodlin vs x : peval (prodlin vs) x = fprod (map (fun v => x - v) vs).
+    Proof.
+      induction vs as [|v r IH]; cbn [prodlin map]; [cbn; ring|].
+      rewrite peval_pmul, peval_lin, IH. reflexivity.
+    Qed.
+
+    Definition psum (ps : list (list F)) : list F := fold_right padd [] ps.
+
+    Lemma peval_psum ps x : peval (psum ps) x = fsum (map (fun p => peval p x) ps).
+    Proof.
+      induction ps as [|p ps IH]; [reflexivity|]. cbn [psum fold_right map]. rewrite peval_padd.
+      fold (psum ps). rewrite IH. reflexivity.
+    Qed.
+
+    Lemma psum_length ps m : (forall p, In p ps -> (length p <= m)%nat) -> (length (psum ps) <= m)%nat.
+    Proof.
+      induction ps as [|p ps IH]; intros Hp; [cbn; lia|]. cbn [psum fold_right]. rewrite padd_length. fold (psum ps).
+      apply Nat.max_lub; [apply Hp; left; reflexivity|apply IH; intros q Hq; apply Hp; right; exact Hq].
+    Qed.
+
+    Definition others (v : F) (vs : list F) : list F := remove F_eq_dec v vs.
+
+    Lemma prod_others vs v x :
+      NoDup vs -> In v vs ->
+      fprod (map (fun u => x - u) (others v vs)) * (x - v) = fprod (map (fun u => x - u) vs).
+    Proof.
+      unfold others. induction vs as [|a r IH]; intros Hnd Hin; [contradiction|].
+      apply NoDup_cons_iff in Hnd. destruct Hnd as [Ha Hnd]. cbn [remove].
+      destruct (F_eq_dec v a) as [->|Hne].
+      - rewrite notin_remove by exact Ha. cbn [map]. rewrite fprod_cons. ring.
+      - destruct Hin as [E|Hin]; [congruence|]. cbn [map]. rewrite !fprod_cons.
+        transitivity ((x - a) * (fprod (map (fun u => x - u) (remove F_eq_dec v r)) * (x - v))); [ring|].
+        rewrite IH by assumption. reflexivity.
+    Qed.
+
+    Lemma others_length vs v : NoDup vs -> In v vs -> Datatypes.S (length (others v vs)) = length vs.
+    Proof.
+      unfold others. induction vs as [|a r IH]; intros Hnd Hin; [contradiction|].
+      apply NoDup_cons_iff in Hnd. destruct Hnd as [Ha Hnd]. cbn [remove].
+      destruct (F_eq_dec v a) as [->|Hne].
+      - rewrite notin_remove by exact Ha. reflexivity.
+      - destruct Hin as [E|Hin]; [congruence|]. cbn [length]. rewrite IH by assumption. reflexivity.
+    Qed.
+
+    Lemma fprod_zero_factor v0 l : In v0 l -> fprod (map (fun u => v0 - u) l) = 0.
+    Proof.
+      induction l as [|a r IH]; intros Hin; [contradiction|]. cbn [map]. rewrite fprod_cons.
+      destruct Hin as [->|Hin]; [ring|]. rewrite IH by exact Hin. ring.
+    Qed.
+
+    Lemma fsum_indicator (h : F -> F) vs v0 :
+      NoDup vs -> In v0 vs -> fsum (map (fun v => if F_eq_dec v v0 then h v else 0) vs) = h v0.
+    Proof.
+      induction vs as [|a r IH]; intros Hnd Hin; [contradiction|].
+      apply NoDup_cons_iff in Hnd. destruct Hnd as [Ha Hnd]. cbn [map]. rewrite fsum_cons.
+      destruct (F_eq_dec a v0) as [->|Hne].
+      - assert (Z : fsum (map (fun v => if F_eq_dec v v0 then h v else 0) r) = 0).
+        { clear IH Hin. induction r as [|b r IHr]; [reflexivity|]. cbn [map]. rewrite fsum_cons.
+          destruct (F_eq_dec b v0) as [->|_]; [exfalso; apply Ha; left; reflexivity|].
+          rewrite IHr; [ring| |].
+          - intros Hc. apply Ha. right. exact Hc.
+          - apply NoDup_cons_iff in Hnd. tauto. }
+        rewrite Z. ring.
+      - destruct Hin as [E|Hin]; [congruence|]. rewrite IH by assumption. ring.
+    Qed.
+
+    Variable c : F -> F.
+    Definition qpoly (vs : list F) : list F := psum (map (fun v => pscale (c v) (prodlin (others v vs))) vs).
+
+    Lemma qpoly_length vs : NoDup vs -> (length (qpoly vs) <= length vs)%nat.
+    Proof.
+      intros Hnd. unfold qpoly. apply psum_length. intros p Hp. apply in_map_iff in Hp. destruct Hp as (v & <- & Hv).
+      rewrite pscale_length, prodlin_length, others_length by assumption. lia.
+    Qed.
+
+    Lemma peval_qpoly vs x :
+      peval (qpoly vs) x = fsum (map (fun v => c v * fprod (map (fun u => x - u) (others v vs))) vs).
+    Proof.
+      unfold qpoly. rewrite peval_psum, map_map. apply fsum_map_ext_in. intros v _.
+      rewrite peval_pscale, peval_prodlin. reflexivity.
+    Qed.
+
+    Lemma qpoly_nonpole vs x :
+      NoDup vs -> (forall u, In u vs -> x <> u) ->
+      peval (qpoly vs) x = fprod (map (fun u => x - u) vs) * fsum (map (fun v => c v * finv (x - v)) vs).
+    Proof.
+      intros Hnd Hx. rewrite peval_qpoly, <- fsum_map_scale. apply fsum_map_ext_in. intros v Hv.
+      assert (Hxv : x - v <> 0) by (intros E; apply (Hx v Hv); apply f_sub_eq_0; exact E).
+      rewrite <- (prod_others vs v x Hnd Hv).
+      transitivity (c v * fprod (map (fun u => x - u) (others v vs)) * ((x - v) * finv (x - v))); [|ring].
+      rewrite f_inv_r by exact Hxv. ring.
+    Qed.
+
+    Lemma qpoly_pole vs v0 :
+      NoDup vs -> In v0 vs ->
+      peval (qpoly vs) v0 = c v0 * fprod (map (fun u => v0 - u) (others v0 vs)) /\
+      fprod (map (fun u => v0 - u) (others v0 vs)) <> 0.
+    Proof.
+      intros Hnd Hin. split.
+      - rewrite peval_qpoly.
+        rewrite (fsum_map_ext_in _ (fun v => if F_eq_dec v v0 then c v * fprod (map (fun u => v0 - u) (others v vs)) else 0)).
+        + rewrite (fsum_indicator (fun v => c v * fprod (map (fun u => v0 - u) (others v vs))) vs v0 Hnd Hin). reflexivity.
+        + intros v Hv. destruct (F_eq_dec v v0) as [_|Hne]; [reflexivity|].
+          rewrite fprod_zero_factor; [ring|]. unfold others. apply in_in_remove; [congruence|exact Hin].
+      - apply fprod_neq_0. apply Forall_forall. intros y Hy. apply in_map_iff in Hy. destruct Hy as (u & <- & Hu).
+        unfold others in Hu. apply in_remove in Hu. destruct Hu as [_ Hne].
+        intros E. apply Hne. symmetry. apply f_sub_eq_0. exact E.
+    Qed.
+
+    Theorem poles_vanish (vs alphas : list F) :
+      NoDup vs -> NoDup alphas -> (length vs <= length alphas)%nat ->
+      (forall a, In a alphas -> (forall u, In u vs -> a <> u) /\ fsum (map (fun v => c v * finv (a - v)) vs) = 0) ->
+      forall v, In v vs -> c v = 0.
+    Proof.
+      intros Hnd Hna Hlen Hal v0 Hv0.
+      assert (Hroots : forall a, In a alphas -> peval (qpoly vs) a = 0).
+      { intros a Ha. destruct (Hal a Ha) as [Hnp Hz]. rewrite qpoly_nonpole by assumption. rewrite Hz. ring. }
+      assert (Hz : pzero (qpoly vs)).
+      { destruct (pzero_dec (qpoly vs)) as [Hz|Hnz]; [exact Hz|exfalso].
+        pose proof (root_bound (qpoly vs) alphas Hnz Hna Hroots) as Hlt.
+        pose proof (qpoly_length vs Hnd). lia. }
+      destruct (qpoly_pole vs v0 Hnd Hv0) as [Hev Hne].
+      rewrite (peval_pzero _ v0 Hz) in Hev. symmetry in Hev. apply f_mul_eq_0 in Hev. tauto.
+    Qed.
+  End Poles.
+
+  Lemma fsum_map_sub {A} (p q g : A -> F) l :
+    fsum (map (fun v => (p v - q v) * g v) l) = fsum (map (fun v => p v * g v) l) - fsum (map (fun v => q v * g v) l).
+  Proof. induction l as [|x l IH]; cbn [map]; rewrite ?fsum_cons; [unfold fsum; cbn [fold_right]; ring|]. rewrite IH. ring. Qed.
+
+  (* regrouping a weighted sum by the distinct values of its keys *)
+  Section Regroup.
+    Definition weight_of (l : list (F * F)) (v : F) : F :=
+      fsum (map snd (filter (fun kw => fst kw =? v) l)).
+
+    Lemma regroup (gf : F -> F) (l : list (F * F)) (V : list F) :
+      NoDup V -> (forall kw, In kw l -> In (fst kw) V) ->
+      fsum (map (fun kw => snd kw * gf (fst kw)) l) = fsum (map (fun v => weight_of l v * gf v) V).
+    Proof.
+      intros Hnd. induction l as [|[k w] l IH]; intros Hin.
+      - cbn [map]. unfold weight_of. cbn [filter map]. clear Hin.
+        induction V as [|v V IHV]; [reflexivity|]. cbn [map]. rewrite fsum_cons.
+        rewrite <- IHV by (apply NoDup_cons_iff in Hnd; tauto). unfold fsum. cbn [fold_right]. ring.
+      - cbn [map fst snd]. rewrite fsum_cons, IH by (intros kw Hkw; apply Hin; right; exact Hkw).
+        assert (Hk : In k V) by (apply (Hin (k, w)); left; reflexivity).
+        rewrite <- (fsum_indicator (fun v => w * gf v) V k Hnd Hk).
+        assert (E : forall v, weight_of ((k, w) :: l) v = (if F_eq_dec v k then w else 0) + weight_of l v).
+        { intros v. unfold weight_of. cbn [filter fst]. destruct (F_eq_dec v k) as [->|Hne].
+          - rewrite feqb_refl. cbn [map snd]. rewrite fsum_cons. reflexivity.
+          - assert (Hf : (k =? v) = false) by (apply feqb_false; congruence). rewrite Hf. ring. }
+        clear IH Hin Hk. induction V as [|v V IHV]; [cbn; ring|].
+        cbn [map]. rewrite !fsum_cons, E. apply NoDup_cons_iff in Hnd.
+        rewrite <- IHV by tauto. destruct (F_eq_dec v k); ring.
+    Qed.
+
+    Lemma weight_of_ones (fs : list F) v :
+      weight_of (map (fun f => (f, 1)) fs) v = fofnat (count_occ F_eq_dec fs v).
+    Proof.
+      unfold weight_of. induction fs as [|f fs IH]; [reflexivity|]. cbn [map filter fst count_occ].
+      destruct (F_eq_dec f v) as [->|Hne].
+      - rewrite feqb_refl. cbn [map snd fofnat]. rewrite fsum_cons, IH. reflexivity.
+      - assert (Hf : (f =? v) = false) by (apply feqb_false; exact Hne). rewrite Hf. exact IH.
+    Qed.
+
+    (* the balance equation holding at enough challenges alpha forces every looking value into the table,
+       provided 1, 2, .., #lookups are non-zero in the field (characteristic larger than the number of lookups) *)
+    Theorem balance_forces_membership (tms : list (F * F)) (fs alphas : list F) :
+      (forall k, (1 <= k <= length fs)%nat -> fofnat k <> 0) ->
+      NoDup alphas -> (length tms + length fs <= length alphas)%nat ->
+      (forall a, In a alphas ->
+         (forall tm, In tm tms -> a <> fst tm) /\ (forall f, In f fs -> a <> f) /\
+         fsum (map (fun tm => snd tm * finv (a - fst tm)) tms) = fsum (map (fun f => finv (a - f)) fs)) ->
+      forall f, In f fs -> exists m, In (f, m) tms.
+    Proof.
+      intros Hchar Hna Hlen Hal f0 Hf0.
+      set (V := nodup F_eq_dec (map fst tms ++ fs)).
+      assert (HVnd : NoDup V) by apply NoDup_nodup.
+      assert (HVt : forall kw, In kw tms -> In (fst kw) V).
+      { intros kw Hkw. apply nodup_In. apply in_or_app. left. apply in_map. exact Hkw. }
+      assert (HVf : forall kw, In kw (map (fun f => (f, 1)) fs) -> In (fst kw) V).
+      { intros kw Hkw. apply in_map_iff in Hkw. destruct Hkw as (f & <- & Hf). apply nodup_In. apply in_or_app. right. exact Hf. }
+      set (c := fun v => weight_of tms v - weight_of (map (fun f => (f, 1)) fs) v).
+      assert (Hc : forall v, In v V -> c v = 0).
+      { apply (poles_vanish c V alphas HVnd Hna).
+        - unfold V.
+          assert (Hl : (length (nodup F_eq_dec (map fst tms ++ fs)) <= length (map fst tms ++ fs))%nat).
+          { clear. induction (map fst tms ++ fs) as [|a l IHl]; [cbn; lia|]. cbn [nodup].
+            destruct (in_dec F_eq_dec a l); cbn [length]; lia. }
+          rewrite app_length, map_length in Hl. lia.
+        - intros a Ha. destruct (Hal a Ha) as (Hp1 & Hp2 & Hb). split.
+          + intros u Hu. apply nodup_In in Hu. apply in_app_or in Hu. destruct Hu as [Hu|Hu].
+            * apply in_map_iff in Hu. destruct Hu as (tm & <- & Htm). apply Hp1. exact Htm.
+            * apply Hp2. exact Hu.
+          + set (gf := fun v => finv (a - v)).
+            transitivity (fsum (map (fun v => weight_of tms v * gf v) V)
+                          - fsum (map (fun v => weight_of (map (fun f => (f, 1)) fs) v * gf v) V)).
+            { unfold c, gf. apply fsum_map_sub. }
+            rewrite <- (regroup gf tms V HVnd HVt), <- (regroup gf _ V HVnd HVf).
+            rewrite map_map. cbn [fst snd]. unfold gf. rewrite Hb.
+            rewrite (fsum_map_ext_in (fun x => 1 * finv (a - x)) (fun f => finv (a - f))) by (intros; ring). ring. }
+      assert (Hf0V : In f0 V) by (apply nodup_In; apply in_or_app; right; exact Hf0).
+      specialize (Hc f0 Hf0V). unfold c in Hc. rewrite weight_of_ones in Hc.
+      assert (Hcount : (1 <= count_occ F_eq_dec fs f0 <= length fs)%nat).
+      { split; [apply count_occ_In; exact Hf0|]. clear. induction fs as [|a l IHl]; [cbn; lia|].
+        cbn [count_occ length]. destruct (F_eq_dec a f0); lia. }
+      assert (Hw : weight_of tms f0 <> 0).
+      { intros E. apply (Hchar _ Hcount). apply (proj1 (f_sub_eq_0 _ _)) in Hc. rewrite <- Hc. exact E. }
+      unfold weight_of in Hw.
+      destruct (filter (fun kw => fst kw =? f0) tms) as [|[k w] rest] eqn:Ef; [exfalso; apply Hw; reflexivity|].
+      assert (Hin : In (k, w) (filter (fun kw => fst kw =? f0) tms)) by (rewrite Ef; left; reflexivity).
+      apply filter_In in Hin. destruct Hin as [Hin Hk]. cbn [fst] in Hk. apply f_eqb_spec in Hk. subst k.
+      exists w. exact Hin.
+    Qed.
+  End Regroup.
+  (* ------------------------------------------------------------ vanishing constraints at many alphas: membership *)
+  Lemma sum_as_flat num_routed (ch : @challenges F) g W :
+    fsum (map (fun r => fsum (map (sum_term ch W r) (seq 0 (num_routed / 3)))) (lut_rows g)) =
+    fsum (map (fun tm : F * F => snd tm * finv (ch_alpha ch - fst tm)) (looked_flat num_routed ch g W)).
+  Proof.
+    unfold looked_flat. rewrite fsum_flat_map. apply fsum_map_ext_in. intros r _. rewrite map_map. reflexivity.
+  Qed.
+
+  Lemma ldc_as_flat num_routed (ch : @challenges F) g W :
+    fsum (map (fun r => fsum (map (ldc_term ch W r) (seq 0 (num_routed / 2)))) (lu_rows g)) =
+    fsum (map (fun f => finv (ch_alpha ch - f)) (looking_flat num_routed ch g W)).
+  Proof.
+    unfold looking_flat. rewrite fsum_flat_map. apply fsum_map_ext_in. intros r _. rewrite map_map. reflexivity.
+  Qed.
+
+  (* the deterministic consequence of vanishing lookup constraints, per table *)
+  Theorem lookup_sound (num_routed qdf npl : nat) (tabs : list (list (F * F))) (ch : @challenges F) (regions : list region)
+          (gd : region) (W : nat -> list F) (RE : nat -> F) (S : nat -> nat -> F) (n i : nat) :
+    let g := nth i regions gd in
+    (1 <= npl)%nat -> (1 <= qdf)%nat -> (1 <= num_routed / 3)%nat ->
+    length tabs = length regions -> (forall t, In t tabs -> t <> []) -> (forall r, (num_routed <= length (W r))%nat) ->
+    (forall r, (r < n)%nat ->
+       exists cs, lookup_constraints num_routed qdf tabs ch (W r) (zs_at npl RE S r) (zs_at npl RE S ((r + 1) mod n))
+                                     (lookup_selectors_at regions r) = Some cs /\ all_zero cs) ->
+    (i < length regions)%nat -> (last_lu g < last_lut g)%nat /\ (last_lut g <= first_lut g)%nat -> (first_lut g + 1 < n)%nat ->
+    (num_routed / 3 <= npl * div_ceil (num_routed / 3) npl)%nat -> (num_routed / 2 <= npl * (qdf - 1))%nat ->
+    (forall r, In r (lut_rows g) -> lut_factors_ok num_routed ch W r) ->
+    (forall r, In r (lu_rows g) -> lu_factors_ok num_routed ch W r) ->
+    (* start of the running sum pinned by InitSre, end pinned by LastLdc *)
+    S (npl - 1)%nat (first_lut g + 1)%nat = 0 /\ S (npl - 1)%nat (last_lu g) = 0 /\
+    (* hence the balance equation of the logarithmic-derivative argument at the challenge alpha *)
+    fsum (map (fun tm : F * F => snd tm * finv (ch_alpha ch - fst tm)) (looked_flat num_routed ch g W)) =
+    fsum (map (fun f => finv (ch_alpha ch - f)) (looking_flat num_routed ch g W)) /\
+    (* and the RE recurrence over the table rows, run from zero, equals get_lut_poly(delta) of the declared table *)
+    re_fold (ch_delta ch) 0 (flat_map (fun r => map (looked_combo (ch_b ch) (W r)) (seq 0 (num_routed / 3))) (rev (lut_rows g))) =
+    end_value num_routed (nth i tabs []) ch.
+  Proof.
+    intros g Hnpl Hqdf Hnlut Hlen Htabs Hwl Hrows Hi Hok Hn Hc1 Hc2 Hfl Hfu.
+    split; [|split; [|split]].
+    - apply (start_pinned num_routed qdf npl tabs ch regions gd W RE S) with (n := n); assumption.
+    - apply (end_pinned num_routed qdf npl tabs ch regions gd W RE S) with (n := n); assumption.
+    - rewrite <- sum_as_flat, <- ldc_as_flat.
+      exact (sound_balance num_routed qdf npl tabs ch regions gd W RE S Hnpl Hqdf Hnlut Hlen Htabs Hwl n i Hrows Hi Hok Hn Hc1 Hc2 Hfl Hfu).
+    - exact (sound_re num_routed qdf npl tabs ch regions gd W RE S Hnpl Hqdf Hnlut Hlen Htabs Hwl n i Hrows Hi Hok Hn Hc1 Hc2).
+  Qed.
+
+  Section SoundMembership.
+    Variables (num_routed qdf npl : nat) (tabs : list (list (F * F))) (a b d : F) (regions : list region) (gd : region)
+              (W : nat -> list F) (n i : nat).
+    (* the challenges with alpha varying; the wires W are committed before alpha is drawn *)
+    Definition ch_with (alpha : F) : @challenges F := {| ch_a := a; ch_b := b; ch_alpha := alpha; ch_delta := d |}.
+    Let g := nth i regions gd.
+    (* (combination, multiplicity) of every slot of the table rows, combination of every looking slot *)
+    Definition table_slots : list (F * F) := looked_flat num_routed (ch_with 0) g W.
+    Definition looking_slots : list F := looking_flat num_routed (ch_with 0) g W.
+
+    Theorem sound_membership (alphas : list F) :
+      (1 <= npl)%nat -> (1 <= qdf)%nat -> (1 <= num_routed / 3)%nat ->
+      length tabs = length regions -> (forall t, In t tabs -> t <> []) -> (forall r, (num_routed <= length (W r))%nat) ->
+      (i < length regions)%nat -> (last_lu g < last_lut g)%nat /\ (last_lut g <= first_lut g)%nat -> (first_lut g + 1 < n)%nat ->
+      (num_routed / 3 <= npl * div_ceil (num_routed / 3) npl)%nat -> (num_routed / 2 <= npl * (qdf - 1))%nat ->
+      (forall k, (1 <= k <= length looking_slots)%nat -> fofnat k <> 0) ->
+      NoDup alphas -> (length table_slots + length looking_slots <= length alphas)%nat ->
+      (forall alpha, In alpha alphas ->
+         (forall r, In r (lut_rows g) -> lut_factors_ok num_routed (ch_with alpha) W r) /\
+         (forall r, In r (lu_rows g) -> lu_factors_ok num_routed (ch_with alpha) W r) /\
+         exists (RE : nat -> F) (S : nat -> nat -> F),
+           forall r, (r < n)%nat ->
+             exists cs, lookup_constraints num_routed qdf tabs (ch_with alpha) (W r) (zs_at npl RE S r)
+                                           (zs_at npl RE S ((r + 1) mod n)) (lookup_selectors_at regions r) = Some cs /\
+                        all_zero cs) ->
+      forall f, In f looking_slots -> exists m, In (f, m) table_slots.
+    Proof.
+      intros Hnpl Hqdf Hnlut Hlen Htabs Hwl Hi Hok Hn Hc1 Hc2 Hchar Hnd Hcount Hal.
+      apply (balance_forces_membership table_slots looking_slots alphas Hchar Hnd Hcount).
+      intros alpha Ha. destruct (Hal alpha Ha) as (Hfl & Hfu & RE & S & Hrows).
+      split; [|split].
+      - intros tm Htm. unfold table_slots, looked_flat in Htm. apply in_flat_map in Htm.
+        destruct Htm as (r & Hr & Htm). apply in_map_iff in Htm. destruct Htm as (s & <- & Hs). apply in_seq in Hs.
+        cbn [fst]. intros E. apply (Hfl r Hr s ltac:(lia)). cbn [ch_with ch_alpha ch_a]. rewrite E. apply f_sub_diag.
+      - intros f Hf. unfold looking_slots, looking_flat in Hf. apply in_flat_map in Hf.
+        destruct Hf as (r & Hr & Hf). apply in_map_iff in Hf. destruct Hf as (s & <- & Hs). apply in_seq in Hs.
+        intros E. apply (Hfu r Hr s ltac:(lia)). cbn [ch_with ch_alpha ch_a]. rewrite E. apply f_sub_diag.
+      - pose proof (sound_balance num_routed qdf npl tabs (ch_with alpha) regions gd W RE S Hnpl Hqdf Hnlut Hlen Htabs Hwl n i
+                      Hrows Hi Hok Hn Hc1 Hc2 Hfl Hfu) as B.
+        rewrite sum_as_flat, ldc_as_flat in B. exact B.
+    Qed.
+  End SoundMembership.
 End LookupProofs.
